@@ -79,8 +79,17 @@ func ZZ_C04() {
 		u.Script = common.NewThresholdScript(1)
 		u.Asset = zzHash()
 		ver := &common.VersionedTransaction{}
+		if vr.Bool() {
+			// a keyed kernel output: the node-remove output of an accepted node (its keys are one-time keys too)
+			u.Type = common.OutputTypeNodeRemove
+			signer, payee := crypto.Key(zzHash()), crypto.Key(zzHash())
+			zzSet(s, nodeStateQueueKey(signer, 1), nodeEntryValue(payee, zzHash(), common.NodeStateAccepted))
+			ver.Extra = append(append([]byte{}, signer[:]...), payee[:]...)
+			before = zzDump(s)
+			vr.Cover("node-remove-output")
+		}
 		txn := s.snapshotsDB.NewTransaction(true)
-		err = writeUTXO(txn, u, ver, 1, false)
+		err = writeUTXO(txn, u, ver, 2, false)
 		if err == nil {
 			err = txn.Commit()
 		} else {
